@@ -470,6 +470,32 @@ class Check(Property):
                     if got != want:
                         v.append(f"C13 after listing compatible units inside the context sp ({first or 'no definition'}): get_compatible_units({un!r}) has "
                                  f"{len(got)} units outside the context, a registry that never entered it {len(want)} (inside: {inside[un]})")
+            # an alias given to a spelling that had been read as prefix + unit (or as a plural): every later answer about the spelling
+            # is the one a registry gives that saw the alias line before any question
+            for alias_line, sp, dst in (("@alias inch = cm", "cm", "mm"), ("@alias second = kgs", "kgs", "ms"), ("@alias gram = meters", "meters", "mg"),
+                                        ("@alias mile = kilometre", "kilometre", "yard")):
+                for tname in ("float", "fraction"):
+                    hist, plain_ = regs.fresh(tname), regs.fresh(tname)
+
+                    def ask(r_):
+                        out = []
+                        for fn in (lambda: dict(r_.parse_units(sp)._units), lambda: r_.Quantity(1, sp).to(dst).magnitude,
+                                   lambda: r_.get_root_units(sp), lambda: dict(r_.get_dimensionality(sp)), lambda: str(r_.Unit(sp)),
+                                   lambda: r_.convert(2, sp, dst), lambda: str(r_.get_base_units(sp)[1]), lambda: str(r_.parse_expression("3 " + sp).units)):
+                            try:
+                                out.append(str(fn()))
+                            except Exception as exc:  # noqa: BLE001
+                                out.append(type(exc).__name__)
+                        return out
+                    ask(hist)
+                    try:
+                        hist.define(alias_line), plain_.define(alias_line)
+                    except Exception:  # noqa: BLE001
+                        continue
+                    got, want = ask(hist), ask(plain_)
+                    if got != want:
+                        v.append(f"C13 {sp!r} asked, then define({alias_line!r}), then asked again ({tname}): {got}; a registry that saw the alias "
+                                 f"first answers {want}")
             u = self.mkreg()
             with u.context("c13ctx"):
                 u.define("zork = 2 * meter")
